@@ -370,7 +370,7 @@ def polygon_case(spec):
         a_in[int(rng.integers(0, 3))] = float(rng.choice([-1.0, 1.0])) * float(rng.choice([1.0, 2.0, 0.5]))
         a_out = -a_in
     rot2 = G._rotation_matrix(n_in=a_in, n_out=a_out)
-    tok.cmd("q_rot").vec(a_in).vec(a_out)
+    tok.cmd("q_vis_rot").vec(a_in).vec(a_out)
 
     # ---- _project_to_plane: 3-d (both modes) and 2-d (the winding loop's use)
     proj_in = []
@@ -648,7 +648,7 @@ def scene_case(spec):
     M = G._check_patch2patch_visibility(centers, sn_arg, sp_arg)
     V = [G._check_point2patch_visibility(e, centers, sn_arg, sp_arg) for e in sc["evalpts"]]
 
-    tok = Tok().cmd("q_p2p").f(EPS).f(ETA).vecs(centers).i(len(polys))
+    tok = Tok().cmd("q_vis_p2p").f(EPS).f(ETA).vecs(centers).i(len(polys))
     for p, n in zip(polys, normals):
         surf_tok(tok, p, n)
     for e in sc["evalpts"]:
@@ -805,7 +805,7 @@ def bake_case(spec):
     if np.tril(M).any():
         pfail("upper_triangle", "baked visibility matrix has a True entry with i >= j")
     # model: matrix through q_p2p, pair list through Scene.vis_pairs fed with the matrix
-    tok = Tok().cmd("q_p2p").f(EPS).f(ETA).vecs(centers).i(len(polys))
+    tok = Tok().cmd("q_vis_p2p").f(EPS).f(ETA).vecs(centers).i(len(polys))
     for p, n in zip(polys, normals):
         surf_tok(tok, p, n)
     res = run_driver(tok)
